@@ -189,3 +189,13 @@ func copyTree(src, dst string) {
 }
 
 var _ = fmt.Sprint
+
+func readIndexFile(dir string) (types.Index, error) {
+	var idx types.Index
+	b, err := os.ReadFile(filepath.Join(dir, "index.json"))
+	if err != nil {
+		return idx, err
+	}
+	err = json.Unmarshal(b, &idx)
+	return idx, err
+}
